@@ -494,6 +494,9 @@ func init() {
 			if vsched.Choose(2) == 1 {
 				s1.endErr = errStream // stream 1 ends with a read error instead of EOF: everything is torn down all the same
 			}
+			if vsched.Choose(2) == 1 {
+				s1.strict, s2.strict = true, true // closing an already closed stream is an error (each direction closes both streams)
+			}
 			gF := &vsched.Gate{}
 			vsched.OnQuiescent(func() bool {
 				switch vsched.CtrAdd(cPhase, 1) {
@@ -733,6 +736,7 @@ type proxyStream struct {
 	eof     *vsched.Gate // opened by the harness when the remote side ends
 	closed  chan struct{}
 	endErr  error // returned instead of io.EOF when set
+	strict  bool  // a second Close reports "already closed" (like os.File, net.Conn)
 }
 
 func newProxyStream(id int, chunks [][]byte, endsEOF bool) *proxyStream {
@@ -791,6 +795,10 @@ func (s *proxyStream) Close() error {
 	if vsched.CtrAdd(10*s.id, 1) == 1 {
 		close(s.closed)
 		s.eof.Open()
+		return nil
+	}
+	if s.strict {
+		return io.ErrClosedPipe
 	}
 	return nil
 }
